@@ -3,7 +3,7 @@ The file /verif/known_findings.json is read only (never written at run time).
 
 entry: {"id", "property", "status": "open"|"fixed", "what", "record",
         "match": {"op": [..], "clauses": [..], "labels_all": [..], "labels_none": [..], "backend": "rs"|"py"|null,
-                  "where": {dotted.path: value}}}
+                  "where": {dotted.path: value}, "where_any": [{dotted.path: value}, ...]}}
 A divergent event is covered iff EVERY failed clause of its verdict is covered by some open entry
 of the same property whose op / labels / backend predicates hold for the event.  `fixed` entries
 cover nothing."""
@@ -63,13 +63,21 @@ def _matches(entry, prop, ev, clause):
         got = labels[labels.index(name) + 1]
         if (got not in val) if isinstance(val, list) else (got != val):
             return False
-    for path, val in m.get("where", {}).items():
-        got = _get(ev, path)
-        if isinstance(val, list):
-            if got not in val:
+    def holds(cond):
+        for path, val in cond.items():
+            got = _get(ev, path)
+            if isinstance(val, list):
+                if got not in val:
+                    return False
+            elif got != val:
                 return False
-        elif got != val:
-            return False
+        return True
+
+    if not holds(m.get("where", {})):
+        return False
+    # where_any: a list of alternative conditions, one of which must hold
+    if "where_any" in m and not any(holds(c) for c in m["where_any"]):
+        return False
     return True
 
 
